@@ -10,7 +10,7 @@ BUILT = {
  "C02": dict(cat="exploration", tech="deterministic simulation: hostile channel + adversarial proof crafting over a simulator-owned free-module group; Fiat-Shamir challenges tapped at the merlin seam; independent paper-form reference verifier as oracle on every verification; tuned cancelling pairs resubmitted after accepted batches; simulator-owned dishonest prover (protocol mirrored through the public API) delivering surplus-round forgeries",
    text="Every verification a simulated verifier performs (honest, channel-faulted and adversarially crafted proofs, singly and in batches) is compared with an independent unoptimised evaluation of the published relation at the challenges the library actually drew: over the free module the verifier's residual must equal w * reference residual coefficient by coefficient (so a generator or proof element weighted differently shows up on its own coordinate), on Ristretto the verdicts must agree, shape defects must be refused. This decides 'the implemented linear combination is the published one' at sampled challenge points; it has no interleaving dimension and does not prove knowledge soundness of the protocol.",
    note="Trusted: refmodel.rs (harness's reading of the paper / RFC-0181), FreePoint as a faithful group, tapped challenges (transcript layout is C04), vector generators taken from the parameters (C11).", ref="5/C02"),
- "C04": dict(cat="fault_enumeration", tech="deterministic simulation: single-datum message faults enumerated over every transcript input position; transcript event log recorded at the merlin seam; oracle over the two recorded challenge histories",
+ "C04": dict(cat="fault_enumeration", tech="deterministic simulation: single-datum message faults enumerated over every transcript input position; transcript event log recorded at the merlin seam; oracle over the two recorded challenge histories; unabsorbable (identity) round messages delivered in all three modes",
    text="For each sampled accepted message every datum that can be perturbed singly (context label/data, H, each G_k, bit length, each commitment, each promise, commitment order, A, each L_j, each R_j, A1, B) is faulted; verifier (and prover where possible) run with the tap on; every challenge drawn after the datum must differ, earlier ones must not; prover and verifier sequences on the honest message must be equal. Exhaustive over positions per message, sampled over messages.",
    note="Challenges identified by ordinal; aggregation factor and extension degree cannot be perturbed alone through the public API (gap: omission of M or T alone is not detected); hash collisions ignored.", ref="5/C04"),
  "C05": dict(cat="fault_enumeration", tech="deterministic simulation: hostile channel applying every single-component fault (position x replacement kind) to accepted messages; verdict oracle under catch_unwind",
